@@ -338,7 +338,9 @@ int KSI_AsyncHandle_getAggregationResp(const KSI_AsyncHandle *h, KSI_Aggregation
 		res = KSI_INVALID_STATE;
 		goto cleanup;
 	}
-	*resp = (KSI_AggregationResp*)h->respCtx;
+	/* The response context holds an aggregation response only when a response to the request has been received
+	 * (it may also hold the configuration received for a configuration request). */
+	*resp = (h->state == KSI_ASYNC_STATE_RESPONSE_RECEIVED) ? (KSI_AggregationResp*)h->respCtx : NULL;
 	res = KSI_OK;
 cleanup:
 	return res;
@@ -355,7 +357,7 @@ int KSI_AsyncHandle_getExtendResp(const KSI_AsyncHandle *h, KSI_ExtendResp **res
 		res = KSI_INVALID_STATE;
 		goto cleanup;
 	}
-	*resp = (KSI_ExtendResp*)h->respCtx;
+	*resp = (h->state == KSI_ASYNC_STATE_RESPONSE_RECEIVED) ? (KSI_ExtendResp*)h->respCtx : NULL;
 	res = KSI_OK;
 cleanup:
 	return res;
@@ -375,7 +377,7 @@ static int createSignature(const KSI_AsyncHandle *h, KSI_Signature **sig) {
 	}
 	KSI_ERR_clearErrors(h->ctx);
 
-	if (h->aggrReq == NULL || h->respCtx == NULL) {
+	if (h->aggrReq == NULL || h->respCtx == NULL || h->state != KSI_ASYNC_STATE_RESPONSE_RECEIVED) {
 		res = KSI_INVALID_STATE;
 		goto cleanup;
 	}
@@ -437,7 +439,7 @@ static int createExtendedSignature(const KSI_AsyncHandle *h, KSI_Signature **sig
 	}
 	KSI_ERR_clearErrors(h->ctx);
 
-	if (h->extReq == NULL || h->signature == NULL || h->respCtx == NULL) {
+	if (h->extReq == NULL || h->signature == NULL || h->respCtx == NULL || h->state != KSI_ASYNC_STATE_RESPONSE_RECEIVED) {
 		KSI_pushError(h->ctx, res = KSI_INVALID_STATE, NULL);
 		goto cleanup;
 	}
